@@ -1,11 +1,12 @@
 import RsslVerif.Model.Parse
 import RsslVerif.Model.ParseFull
 import RsslVerif.Model.ParseStmt
+import RsslVerif.Model.ParseDef
 import RsslVerif.Driver.Util
 /-! Line-protocol front end of the C09 model: `C09.rt <ctx> <tree>` ↦ `<printed text> ==> <re-read tree | ERR:parse>`. -/
 namespace RsslVerif.Driver.C09
 open RsslVerif.Gen.FmtTables RsslVerif.Gen.ParseTables RsslVerif.Gen.SyntaxTables RsslVerif.Model.Format RsslVerif.Model.Parse
-open RsslVerif.Model.FormatFull RsslVerif.Model.ParseFull RsslVerif.Model.FormatStmt RsslVerif.Model.ParseStmt
+open RsslVerif.Model.FormatFull RsslVerif.Model.ParseFull RsslVerif.Model.FormatStmt RsslVerif.Model.ParseStmt RsslVerif.Model.FormatDef RsslVerif.Model.ParseDef
 
 inductive SExp where
   | atom (s : String)
@@ -747,6 +748,136 @@ def handleSt (s : Stmt) : String :=
   | .fail => text ++ " ==> ERR:parse"
   | .panic => text ++ " ==> PANIC"
 
+/-! ## Function and struct definitions -/
+
+def toSem : SExp → Rd (Option String)
+  | .list [.atom "nosem"] => some (some none)
+  | .list [.atom "sem", .atom n] => some (some (some n))
+  | .list [.atom "annot"] => some none
+  | _ => none
+
+def toParam : SExp → Rd Param
+  | .list [.atom "param", ty, d, sem, dflt] =>
+    let dv : Rd (Option XExpr) := match dflt with
+      | .list [.atom "nodef"] => some (some none)
+      | .list [.atom "def", e] => rdMap some (toX e)
+      | _ => none
+    match toTyNoDecl ty, toDecl d, toSem sem, dv with
+    | some (some (m, n, a)), some (some d), some (some s), some (some e) => some (some ⟨m, n, a, d, s, e⟩)
+    | some _, some _, some _, some _ => some none
+    | _, _, _, _ => none
+  | _ => none
+
+def toFn : SExp → Rd FnDef
+  | .list [.atom "fn", .list attrs, ty, .atom name, .list params, sem, body, .list flags] =>
+    let b : Rd (Option Stmts) := match body with
+      | .list [.atom "nobody"] => some (some none)
+      | .list (.atom "body" :: ss) => rdMap some (toStmts ss)
+      | _ => none
+    match toList toAttr attrs, toTyNoDecl ty, toList toParam params, toSem sem, b with
+    | some (some a), some (some (m, n, ta)), some (some ps), some (some s), some (some b) =>
+      if flags.isEmpty then some (some ⟨a, m, n, ta, name, ps, s, b⟩) else some none
+    | some _, some _, some _, some _, some _ => some none
+    | _, _, _, _, _ => none
+  | _ => none
+
+def toMember : SExp → Rd Member
+  | .list [.atom "member", .list attrs, vd] =>
+    match toList toAttr attrs, toVarDef vd with
+    | some (some a), some (some v) => some (some (.var a v))
+    | some _, some _ => some none
+    | _, _ => none
+  | .list [.atom "method", f] => rdMap Member.method (toFn f)
+  | _ => none
+
+def toStructDef : SExp → Rd StructDef
+  | .list [.atom "struct", .atom name, .list members, .list flags] =>
+    match toList toMember members with
+    | some (some ms) => if flags.isEmpty then some (some ⟨name, ms⟩) else some none
+    | some none => some none
+    | none => none
+  | _ => none
+
+def sexpSem : Option String → SExp
+  | none => .list [.atom "nosem"]
+  | some n => .list [.atom "sem", .atom n]
+
+def sexpParam (p : Param) : SExp :=
+  .list [.atom "param", sexpTy (.mk p.mods p.name p.targs .empty), sexpDecl p.decl, sexpSem p.sem,
+    match p.dflt with
+    | none => .list [.atom "nodef"]
+    | some e => .list [.atom "def", sexpX e]]
+
+def sexpFn (f : FnDef) : SExp :=
+  .list [.atom "fn", .list (f.attrs.map sexpAttr), sexpTy (.mk f.rmods f.rname f.rtargs .empty), .atom f.name,
+    .list (f.params.map sexpParam), sexpSem f.sem,
+    (match f.body with
+     | none => .list [.atom "nobody"]
+     | some b => .list (.atom "body" :: sexpStmts b)),
+    .list []]
+
+def sexpMember : Member → SExp
+  | .var attrs v => .list [.atom "member", .list (attrs.map sexpAttr), sexpVarDef v]
+  | .method f => .list [.atom "method", sexpFn f]
+
+def sexpStructDef (s : StructDef) : SExp :=
+  .list [.atom "struct", .atom s.name, .list (s.members.map sexpMember), .list []]
+
+def typeNamesFn (f : FnDef) : List String :=
+  f.rname :: typeNamesTArgs f.rtargs ++ (f.params.map fun p =>
+    p.name :: typeNamesTArgs p.targs ++ typeNamesDecl p.decl ++ typeNamesOpt p.dflt).flatten ++
+  (match f.body with | none => [] | some b => typeNamesStmts b)
+
+def typeNamesMember : Member → List String
+  | .var _ v => v.name :: typeNamesTArgs v.targs
+  | .method f => typeNamesFn f
+
+def defGuard (pieces : List Piece) : Option String :=
+  let ts := toks pieces
+  if pieces.any (fun p => match p with | .t (.lit _) "?" => true | _ => false) then some "unsupported literal" else
+  if gluedAmp pieces then some "unsupported reference to reference" else
+  if attrShape ts then some "unsupported attribute position in a declarator" else none
+
+def handleDef (sx : SExp) : String :=
+  match sx with
+  | .list (.atom "fn" :: _) =>
+    match toFn sx with
+    | none => "bad-request"
+    | some none => "unsupported node kind"
+    | some (some f) =>
+      let pieces := fmtFn f
+      match defGuard pieces with
+      | some msg => msg
+      | none =>
+        let ts := toks pieces
+        let text := render (collapseSp pieces)
+        if gluedIntPeriod pieces || ts.any (fun t => match t with | .lit l => litTooLarge l | _ => false)
+        then text ++ " ==> ERR:lex" else
+        match parseFn (typeNamesFn f) (40 * ts.length + 80) (ts ++ [.p .Eof]) with
+        | .ok f' [.p .Eof] => text ++ " ==> " ++ (alignS (sexpFn f) (sexpFn f')).show
+        | .ok _ _ => text ++ " ==> ERR:shape"
+        | .fail => text ++ " ==> ERR:parse"
+        | .panic => text ++ " ==> PANIC"
+  | .list (.atom "struct" :: _) =>
+    match toStructDef sx with
+    | none => "bad-request"
+    | some none => "unsupported node kind"
+    | some (some s) =>
+      let pieces := fmtStruct s
+      match defGuard pieces with
+      | some msg => msg
+      | none =>
+        let ts := toks pieces
+        let text := render (collapseSp pieces)
+        if gluedIntPeriod pieces || ts.any (fun t => match t with | .lit l => litTooLarge l | _ => false)
+        then text ++ " ==> ERR:lex" else
+        match parseStruct ((s.members.map typeNamesMember).flatten) (40 * ts.length + 80) (ts ++ [.p .Eof]) with
+        | .ok s' [.p .Eof] => text ++ " ==> " ++ (alignS (sexpStructDef s) (sexpStructDef s')).show
+        | .ok _ _ => text ++ " ==> ERR:shape"
+        | .fail => text ++ " ==> ERR:parse"
+        | .panic => text ++ " ==> PANIC"
+  | _ => "bad-request"
+
 /-- answer of the first model (`Model/Format.lean` + `Model/Parse.lean`), `none` where it does not apply -/
 def handleRtCore (ctx : String) (e : Expr) : Option String :=
   if !e.supported then some "unsupported literal" else
@@ -794,6 +925,10 @@ def handle (op : String) (args : List String) : String :=
       | none => "bad-request"
       | some none => "unsupported node kind"
       | some (some st) => handleSt st
+  | "C09.def", [tree] =>
+    match readSExp (sexpTokens tree) with
+    | none => "bad-request"
+    | some sx => handleDef sx
   | _, _ => "unsupported-op"
 
 end RsslVerif.Driver.C09
